@@ -6,14 +6,19 @@
 (*   [ <program name> |-> << scc_1, .., scc_n >> ]                          *)
 (*   scc  = [ looping, dynamic : <<relation>>, lines : <<line>> ]           *)
 (*   line = [ heads : <<relation>>, items : <<item>>, sj, nr ]              *)
-(*   item = [ k : "cl"|"agg"|"for"|"if"|"iflet"|"let", rel, ver ]           *)
+(*   item = [ k : "cl"|"agg"|"for"|"if"|"iflet"|"let", rel, ver,            *)
+(*            idx : <<columns the clause is looked up by (1-based)>> ]      *)
 (* (one line per compiled rule variant; sj / nr = the flags [SIMPLE JOIN] / *)
 (* [NOT REORDERABLE]).                                                      *)
 (*                                                                         *)
 (* The lines are matched with the model's disjunction-free rules by SHAPE  *)
 (* (head relations + kind and relation of every body item). Then          *)
 (*   CodePlanResult  runs SemiNaive's SCC loop with the code's SCC order,  *)
-(*                   looping flags, dynamic sets and version vectors;      *)
+(*                   looping flags, dynamic sets, version vectors and      *)
+(*                   INDEX COLUMNS (a clause is looked up by the values of *)
+(*                   its index columns; every other variable argument is   *)
+(*                   bound afresh from the row, shadowing an earlier       *)
+(*                   binding - as the generated code does);                *)
 (*   ReorderSafe     evaluates every rule whose line is a reorderable      *)
 (*                   simple join in the swapped order the generated code   *)
 (*                   takes when the first relation is the larger one (the  *)
@@ -37,22 +42,133 @@ ShapeOf(rule) == << [ h \in 1..Len(rule.heads) |-> rule.heads[h].rel ],
                     [ i \in 1..Len(rule.body) |-> ItemShape(rule.body[i]) ] >>
 LineShape(line) == << line.heads, [ i \in 1..Len(line.items) |-> << line.items[i].k, line.items[i].rel >> ] >>
 
+(* ---- the index columns the MODEL expects for every clause (ascent_hir.rs: a column is part of the lookup key iff its ----*)
+(* argument is a constant, an expression over variables bound before the clause, or a variable bound before the clause;  *)
+(* aggregations and negations: every argument that is neither `_` nor an aggregated variable)                            *)
+RECURSIVE ExprVars(_)
+ExprVars(e) ==
+   IF e.op = "var" THEN { e.n }
+   ELSE UNION ( { ExprVars(e[f]) : f \in (DOMAIN e) \cap {"a", "b", "c"} }
+                \cup (IF "es" \in DOMAIN e THEN { ExprVars(e.es[j]) : j \in 1..Len(e.es) } ELSE {}) )
+
+RECURSIVE PVars(_)
+PVars(p) ==
+   CASE p.p = "var"  -> { p.n }
+     [] p.p = "some" -> PVars(p.q)
+     [] p.p = "tup"  -> UNION { PVars(p.qs[j]) : j \in 1..Len(p.qs) }
+     [] OTHER        -> {}
+
+CondBinds(c) == IF c.t \in {"let", "iflet"} THEN PVars(c.p) ELSE {}
+ItemBinds(it) ==
+   CASE it.t = "cl" -> UNION ( { IF it.args[j].k = "v" THEN { it.args[j].n }
+                                  ELSE IF it.args[j].k = "p" THEN PVars(it.args[j].p) ELSE {} : j \in 1..Len(it.args) }
+                               \cup { CondBinds(it.conds[j]) : j \in 1..Len(it.conds) } )
+     [] it.t \in {"let", "iflet", "for", "agg"} -> PVars(it.p)
+     [] OTHER -> {}
+
+BoundBefore(rule, i) == UNION { ItemBinds(rule.body[j]) : j \in 1..(i - 1) }
+
+RECURSIVE ClauseIdx(_, _, _, _)
+ClauseIdx(args, G, i, here) ==          \* set of index columns of a body clause; G = variables bound before the clause
+   IF i > Len(args) THEN {}
+   ELSE LET a == args[i] IN
+      CASE a.k = "v" -> IF a.n \in G THEN {i} \cup ClauseIdx(args, G, i + 1, here)
+                        ELSE ClauseIdx(args, G, i + 1, here \cup {a.n})
+        [] a.k = "c" -> {i} \cup ClauseIdx(args, G, i + 1, here)
+        [] a.k = "e" -> (IF ExprVars(a.e) \cap here = {} THEN {i} ELSE {}) \cup ClauseIdx(args, G, i + 1, here)
+        [] OTHER     -> ClauseIdx(args, G, i + 1, here)
+
+ModelIdx(rule, i) ==
+   LET it == rule.body[i] IN
+   CASE it.t = "cl" -> ClauseIdx(it.args, BoundBefore(rule, i), 1, {})
+     [] it.t = "neg" -> { j \in 1..Len(it.args) : it.args[j].k # "w" }
+     [] it.t = "agg" -> { j \in 1..Len(it.args) : it.args[j].k \in {"c", "e"}
+                                                  \/ (it.args[j].k = "v" /\ \A b \in 1..Len(it.bound) : it.bound[b] # it.args[j].n) }
+     [] OTHER -> {}
+
+FirstClause(rule) == IF \E i \in 1..Len(rule.body) : rule.body[i].t = "cl"
+                     THEN Min({ i \in 1..Len(rule.body) : rule.body[i].t = "cl" }) ELSE 0
+
+(* the line has the index columns the model expects (the first clause of a simple join is keyed by the join columns) *)
+IdxAgrees(rule, line) ==
+   \A i \in 1..Len(rule.body) :
+      (line.sj /\ i = FirstClause(rule)) \/ { line.items[i].idx[j] : j \in 1..Len(line.items[i].idx) } = ModelIdx(rule, i)
+
 HasPlan(P0) == P0.name \in DOMAIN CP
 SccsOf(P0) == CP[P0.name]
 AllLines(P0) == UNION { { SccsOf(P0)[s].lines[j] : j \in 1..Len(SccsOf(P0)[s].lines) } : s \in 1..Len(SccsOf(P0)) }
+
+(* a line belongs to a rule iff the shapes agree; when several rules of the program share a shape (two rules with the *)
+(* same head and the same body relations), the index columns tell them apart                                          *)
+Ambiguous(rs, a) == \E b \in 1..Len(rs) : b # a /\ ShapeOf(rs[b]) = ShapeOf(rs[a]) /\ rs[b] # rs[a]
+LineOf(rs, a, line) == LineShape(line) = ShapeOf(rs[a]) /\ (Ambiguous(rs, a) => IdxAgrees(rs[a], line))
 
 (* every model rule is compiled (has a line of its shape) and every line is a rule of the model: only then is the  *)
 (* code's plan executed by the model (otherwise model and code disagree about the RULES, which is reported as drift) *)
 PlanCovers(P0) ==
    LET rs == ConjRules(Elaborate(P0))
-       shapes == { ShapeOf(rs[a]) : a \in 1..Len(rs) }
-       lshapes == { LineShape(l) : l \in AllLines(P0) }
-   IN  shapes = lshapes
+   IN  /\ \A a \in 1..Len(rs) : \E l \in AllLines(P0) : LineOf(rs, a, l)
+       /\ \A l \in AllLines(P0) : \E a \in 1..Len(rs) : LineOf(rs, a, l)
+
+(* (reported, not required) every line has exactly the index columns the model expects *)
+IndexColumnsAgree(P0) ==
+   LET rs == ConjRules(Elaborate(P0))
+   IN  \A l \in AllLines(P0) : \E a \in 1..Len(rs) : LineShape(l) = ShapeOf(rs[a]) /\ IdxAgrees(rs[a], l)
 
 VerName(v) == CASE v = "total" -> "t" [] v = "delta" -> "d" [] v = "total+delta" -> "td" [] OTHER -> "t"
 
 (* version vector of a line over the dynamic clause positions of its rule *)
 LineVer(rule, line, dyn) == [ i \in DynPositions(rule, dyn) |-> VerName(line.items[i].ver) ]
+
+(* ---- matching a clause the way the generated code does, given the index the macro chose for it ---- *)
+IdxSet(li) == { li.idx[j] : j \in 1..Len(li.idx) }
+
+RECURSIVE MatchIdx(_, _, _, _, _, _)
+MatchIdx(args, idx, t, i, env, here) ==
+   IF i > Len(args) THEN {env}
+   ELSE LET a == args[i] IN
+      IF i \in idx
+      THEN \* part of the lookup key: the value is computed from what is bound so far and compared with the column
+           LET v == CASE a.k = "v" -> IF a.n \in DOMAIN env THEN << env[a.n] >> ELSE <<>>
+                      [] a.k = "c" -> << a.v >>
+                      [] a.k = "e" -> << EvalE(a.e, env) >>
+                      [] OTHER     -> <<>>
+           IN  IF v # <<>> /\ v[1] = t[i] THEN MatchIdx(args, idx, t, i + 1, env, here) ELSE {}
+      ELSE CASE a.k = "w" -> MatchIdx(args, idx, t, i + 1, env, here)
+             [] a.k = "v" -> IF a.n \in here
+                             THEN \* repeated inside the clause: desugared into a fresh variable and an equality condition
+                                  (IF env[a.n] = t[i] THEN MatchIdx(args, idx, t, i + 1, env, here) ELSE {})
+                             ELSE \* bound from the row; an earlier binding of the same name is shadowed, not compared
+                                  MatchIdx(args, idx, t, i + 1, (a.n :> t[i]) @@ env, here \cup {a.n})
+             [] a.k = "c" -> IF t[i] = a.v THEN MatchIdx(args, idx, t, i + 1, env, here) ELSE {}
+             [] a.k = "e" -> IF EvalE(a.e, env) = t[i] THEN MatchIdx(args, idx, t, i + 1, env, here) ELSE {}
+             [] a.k = "p" -> UNION { MatchIdx(args, idx, t, i + 1, e2, here) : e2 \in MatchP(a.p, t[i], env) }
+
+StepItemC(it, li, env, db, sjFirst) ==
+   CASE it.t = "cl" ->
+          \* the first clause of a simple join is iterated completely (its index columns are the join key)
+          CondsEnvs(it.conds, 1, UNION { MatchIdx(it.args, IF sjFirst THEN {} ELSE IdxSet(li), t, 1, env, {}) : t \in db[it.rel] })
+     [] it.t = "neg" ->
+          IF \E t \in db[it.rel] : MatchIdx(it.args, IdxSet(li), t, 1, env, {}) # {} THEN {} ELSE {env}
+     [] it.t = "agg" ->
+          LET M == { t \in db[it.rel] : MatchIdx(it.args, IdxSet(li), t, 1, env, {}) # {} }
+              sq == SetToSeq(M)
+              bag == [ i \in 1..Len(sq) |->
+                        LET e2 == CHOOSE x \in MatchIdx(it.args, IdxSet(li), sq[i], 1, env, {}) : TRUE
+                        IN [ j \in 1..Len(it.bound) |-> e2[it.bound[j]] ] ]
+              res == AggApply(it.f, bag)
+          IN UNION { MatchP(it.p, res[i], env) : i \in 1..Len(res) }
+     [] OTHER -> StepItem(it, env, db)
+
+RECURSIVE EnvsC(_, _, _, _, _, _)
+EnvsC(items, line, i, envs, db, sjAt) ==
+   IF i > Len(items) \/ envs = {} THEN envs
+   ELSE EnvsC(items, line, i + 1, UNION { StepItemC(items[i], line.items[i], e, db, i = sjAt) : e \in envs }, db, sjAt)
+
+ConseqC(rule, line, db) ==
+   LET es == EnvsC(rule.body, line, 1, { <<>> }, db, IF line.sj THEN FirstClause(rule) ELSE 0)
+   IN  { << rule.heads[h].rel, [ i \in 1..Len(rule.heads[h].args) |-> EvalE(rule.heads[h].args[i], e) ] >> :
+            h \in 1..Len(rule.heads), e \in es }
 
 SccLines(cs) == { cs.lines[j] : j \in 1..Len(cs.lines) }
 SccDyn(cs) == { cs.dynamic[j] : j \in 1..Len(cs.dynamic) }
@@ -60,8 +176,8 @@ SccDyn(cs) == { cs.dynamic[j] : j \in 1..Len(cs.dynamic) }
 IterationC(P, rs, cs, st) ==
    LET dyn == SccDyn(cs)
        view == ViewDb(st.db, dyn, st.total, st.delta)
-       derived == UNION { UNION { Conseq(Versioned(rs[a], LineVer(rs[a], l, dyn)), view) :
-                                     l \in { l2 \in SccLines(cs) : LineShape(l2) = ShapeOf(rs[a]) } } : a \in 1..Len(rs) }
+       derived == UNION { UNION { ConseqC(Versioned(rs[a], LineVer(rs[a], l, dyn)), l, view) :
+                                     l \in { l2 \in SccLines(cs) : LineOf(rs, a, l2) } } : a \in 1..Len(rs) }
        db2 == AddFacts(P, st.db, derived)
        newOf(r) == IF IsLat(P, r) THEN { t \in db2[r] : t \notin st.db[r] }
                    ELSE { f[2] : f \in { g \in derived : g[1] = r } } \ (st.total[r] \cup st.delta[r])
@@ -114,15 +230,12 @@ ConseqSwapped(rule, i, db) ==
    IN  { << rule.heads[h].rel, [ k \in 1..Len(rule.heads[h].args) |-> EvalE(rule.heads[h].args[k], e) ] >> :
             h \in 1..Len(rule.heads), e \in es }
 
-FirstClause(rule) == IF \E i \in 1..Len(rule.body) : rule.body[i].t = "cl"
-                     THEN Min({ i \in 1..Len(rule.body) : rule.body[i].t = "cl" }) ELSE 0
-
 (* every rule that the code compiled as a REORDERABLE simple join derives the same facts in both orders *)
 ReorderSafe(P0, db) ==
    LET P == Elaborate(P0)
        rs == ConjRules(P)
    IN  \A a \in 1..Len(rs) :
-          (\E l \in AllLines(P0) : LineShape(l) = ShapeOf(rs[a]) /\ l.sj /\ ~l.nr)
+          (\E l \in AllLines(P0) : LineOf(rs, a, l) /\ l.sj /\ ~l.nr)
           => LET i == FirstClause(rs[a]) IN
              i > 0 /\ i < Len(rs[a].body) /\ rs[a].body[i + 1].t = "cl"
              /\ ConseqSwapped(rs[a], i, db) = Conseq(rs[a], db)
